@@ -1,1 +1,268 @@
-//! In-process server harness (E-STATE).
+//! In-process server harness (E-STATE): real `Server` objects on loopback sockets, stepped by the
+//! harness; a capturing logger; client sockets.
+
+use crate::util::catch;
+use mio::Events;
+use roughenough::config::MemoryConfig;
+use roughenough::server::Server;
+use roughenough::stats::StatsQueue;
+use std::cell::RefCell;
+use std::net::{SocketAddr, UdpSocket};
+use std::os::unix::io::AsRawFd;
+use std::sync::atomic::{AtomicU64, Ordering};
+use std::sync::{Arc, Once};
+use std::time::Duration;
+
+pub const DEFAULT_SEED: [u8; 32] = [
+    0xa3, 0x20, 0x49, 0xda, 0x0f, 0xfd, 0xe0, 0xde, 0xd9, 0x2c, 0xe1, 0x0a, 0x02, 0x30, 0xd3, 0x5f, 0xe6, 0x15, 0xec, 0x84,
+    0x61, 0xc1, 0x49, 0x86, 0xba, 0xa6, 0x3f, 0xe3, 0xb3, 0xba, 0xc3, 0xdb,
+];
+
+#[derive(Clone, Debug)]
+pub struct SrvCfg {
+    pub batch_size: u8,
+    pub fault: u8,
+    pub client_stats: bool,
+    pub health: bool,
+    pub seed: [u8; 32],
+}
+
+impl Default for SrvCfg {
+    fn default() -> Self {
+        SrvCfg { batch_size: 64, fault: 0, client_stats: false, health: false, seed: DEFAULT_SEED }
+    }
+}
+
+pub struct Srv {
+    pub server: Server,
+    pub events: Events,
+    pub addr: SocketAddr,
+    pub health_addr: Option<SocketAddr>,
+    pub queue: Arc<StatsQueue>,
+    pub cfg: SrvCfg,
+    pub dead: bool,
+}
+
+fn set_rcvbuf(fd: i32, bytes: i32) {
+    unsafe {
+        let v: libc::c_int = bytes;
+        let p = &v as *const _ as *const libc::c_void;
+        if libc::setsockopt(fd, libc::SOL_SOCKET, libc::SO_RCVBUFFORCE, p, 4) != 0 {
+            libc::setsockopt(fd, libc::SOL_SOCKET, libc::SO_RCVBUF, p, 4);
+        }
+    }
+}
+
+pub fn rcvbuf(fd: i32) -> i32 {
+    unsafe {
+        let mut v: libc::c_int = 0;
+        let mut l: libc::socklen_t = 4;
+        libc::getsockopt(fd, libc::SOL_SOCKET, libc::SO_RCVBUF, &mut v as *mut _ as *mut libc::c_void, &mut l);
+        v
+    }
+}
+
+static INIT: Once = Once::new();
+
+/// Process-wide initialisation: poll timeout 0 (an idle step returns at once), logger installed.
+pub fn init() {
+    INIT.call_once(|| {
+        roughenough::verif::set_poll_override_ms(0);
+        let _ = log::set_logger(&LOGGER);
+        log::set_max_level(log::LevelFilter::Off);
+    });
+}
+
+fn free_tcp_port() -> u16 {
+    let l = std::net::TcpListener::bind("127.0.0.1:0").expect("bind tcp 0");
+    l.local_addr().unwrap().port()
+}
+
+impl Srv {
+    /// Must be called on a named thread (the subject's constructors require it).
+    pub fn new(cfg: &SrvCfg) -> Result<Srv, String> {
+        init();
+        let mut last = String::new();
+        for _attempt in 0..5 {
+            let std_sock = UdpSocket::bind("127.0.0.1:0").map_err(|e| format!("bind: {}", e))?;
+            set_rcvbuf(std_sock.as_raw_fd(), 8 << 20);
+            std_sock.set_nonblocking(true).unwrap();
+            let addr = std_sock.local_addr().unwrap();
+            let sock = mio::net::UdpSocket::from_socket(std_sock).map_err(|e| format!("from_socket: {}", e))?;
+            let mut mc = MemoryConfig::new(addr.port());
+            mc.seed = cfg.seed.to_vec();
+            mc.batch_size = cfg.batch_size;
+            mc.fault_percentage = cfg.fault;
+            mc.client_stats = cfg.client_stats;
+            mc.status_interval = Duration::from_secs(600);
+            mc.num_workers = 1;
+            let hp = if cfg.health { Some(free_tcp_port()) } else { None };
+            mc.health_check_port = hp;
+            let queue = Arc::new(StatsQueue::new(4));
+            let q2 = queue.clone();
+            match catch(move || Server::new(&mc, sock, q2)) {
+                Ok(server) => {
+                    return Ok(Srv {
+                        server,
+                        events: Events::with_capacity(1024),
+                        addr,
+                        health_addr: hp.map(|p| format!("127.0.0.1:{}", p).parse().unwrap()),
+                        queue,
+                        cfg: cfg.clone(),
+                        dead: false,
+                    });
+                }
+                Err(p) => {
+                    last = p;
+                    if !last.contains("bind") {
+                        break;
+                    }
+                }
+            }
+        }
+        Err(format!("Server::new panicked: {}", last))
+    }
+
+    /// One call of the real event loop body. Err(panic message) if it unwound.
+    pub fn step(&mut self) -> Result<(), String> {
+        if self.dead {
+            return Err("server object already dead".into());
+        }
+        let server = &mut self.server;
+        let events = &mut self.events;
+        let r = catch(move || server.process_events(events));
+        if r.is_err() {
+            self.dead = true;
+        }
+        r
+    }
+
+    /// Step until quiescent: one step drains everything pending; one more must be a no-op.
+    pub fn settle(&mut self) -> Result<(), String> {
+        self.step()?;
+        self.step()
+    }
+}
+
+pub struct Client {
+    pub sock: UdpSocket,
+}
+
+impl Client {
+    pub fn new() -> Client {
+        let sock = UdpSocket::bind("127.0.0.1:0").expect("client bind");
+        sock.set_nonblocking(true).unwrap();
+        Client { sock }
+    }
+    /// A client whose receive buffer holds hundreds of replies (several requests from one socket).
+    pub fn with_big_buffer() -> Client {
+        let c = Client::new();
+        set_rcvbuf(c.sock.as_raw_fd(), 4 << 20);
+        c
+    }
+    pub fn port(&self) -> u16 {
+        self.sock.local_addr().unwrap().port()
+    }
+    pub fn send(&self, to: SocketAddr, b: &[u8]) -> bool {
+        self.sock.send_to(b, to).is_ok()
+    }
+    /// Everything currently queued on this socket: (datagram, source address)
+    pub fn drain(&self) -> Vec<(Vec<u8>, SocketAddr)> {
+        let mut out = vec![];
+        let mut buf = vec![0u8; 65536];
+        while let Ok((n, from)) = self.sock.recv_from(&mut buf) {
+            out.push((buf[..n].to_vec(), from));
+        }
+        out
+    }
+}
+
+// ---------------------------------------------------------------------------------------------
+// capturing logger
+
+pub struct CapLogger;
+pub static LOGGER: CapLogger = CapLogger;
+pub static LOG_RECORDS: AtomicU64 = AtomicU64::new(0);
+pub static LOG_BYTES: AtomicU64 = AtomicU64::new(0);
+
+thread_local! {
+    static CAPTURE: RefCell<Option<Vec<String>>> = RefCell::new(None);
+}
+
+impl log::Log for CapLogger {
+    fn enabled(&self, _: &log::Metadata) -> bool {
+        true
+    }
+    fn log(&self, record: &log::Record) {
+        // formatting evaluates the arguments, as any real logger does
+        let s = format!("{} {} {}", record.level(), record.target(), record.args());
+        LOG_RECORDS.fetch_add(1, Ordering::Relaxed);
+        LOG_BYTES.fetch_add(s.len() as u64, Ordering::Relaxed);
+        CAPTURE.with(|c| {
+            if let Some(v) = c.borrow_mut().as_mut() {
+                v.push(s);
+            }
+        });
+    }
+    fn flush(&self) {}
+}
+
+pub fn capture_start() {
+    CAPTURE.with(|c| *c.borrow_mut() = Some(vec![]));
+}
+
+pub fn capture_take() -> Vec<String> {
+    CAPTURE.with(|c| c.borrow_mut().take().unwrap_or_default())
+}
+
+pub fn set_level(l: log::LevelFilter) {
+    init();
+    log::set_max_level(l);
+}
+
+pub const LEVELS: [log::LevelFilter; 6] = [
+    log::LevelFilter::Off,
+    log::LevelFilter::Error,
+    log::LevelFilter::Warn,
+    log::LevelFilter::Info,
+    log::LevelFilter::Debug,
+    log::LevelFilter::Trace,
+];
+
+// ---------------------------------------------------------------------------------------------
+// deterministic nonces
+
+pub fn nonce(tag: u64, len: usize) -> Vec<u8> {
+    let mut out = vec![];
+    let mut c = 0u64;
+    while out.len() < len {
+        out.extend_from_slice(&rtref::crypto::sha512(&[b"nonce", &tag.to_le_bytes(), &c.to_le_bytes()]));
+        c += 1;
+    }
+    out.truncate(len);
+    out
+}
+
+/// Kernel self-test: loopback delivery is synchronous with send_to, and the receive buffer of a
+/// harness server socket holds a burst of `n` maximum-size datagrams.
+pub fn kernel_selftest(n: usize) -> Result<(), String> {
+    let s = UdpSocket::bind("127.0.0.1:0").map_err(|e| e.to_string())?;
+    set_rcvbuf(s.as_raw_fd(), 8 << 20);
+    s.set_nonblocking(true).unwrap();
+    let a = s.local_addr().unwrap();
+    let c = Client::new();
+    for i in 0..n {
+        if !c.send(a, &vec![i as u8; 1500]) {
+            return Err("send failed".into());
+        }
+    }
+    let mut got = 0;
+    let mut buf = [0u8; 2048];
+    while s.recv_from(&mut buf).is_ok() {
+        got += 1;
+    }
+    if got != n {
+        return Err(format!("loopback self-test: sent {} datagrams, {} immediately readable (rcvbuf {})", n, got, rcvbuf(s.as_raw_fd())));
+    }
+    Ok(())
+}
